@@ -178,12 +178,12 @@ CLASSES = ['try_value', 'try_back', 'kwargs_support', 'cache_func', 'loops', 'pd
 
 def deco_params(rng, cls):
     if cls == 'try_value':
-        return dict(repeat=rng.choice([0, 0, 1, 2]), sleep=0, return_value=rng.choice([True, True, True, False]),
+        return dict(repeat=rng.choice([0, 0, 1, 2]), sleep=0, return_value=rng.choice([True, True, True, True, False, 0, None, 1, '']),   # `if self.return_value:` - truthiness
                     value=rng.choice([None, 0, 'fallback', -1]), verbose=None)
     if cls == 'loops':
         return dict(types=rng.choice([['list'], ['list', 'tuple'], ['dict', 'list']]))
     if cls == 'pd2np':
-        return dict(exc=rng.choice([[], ['zz']]))
+        return dict(exc=rng.choice([[], ['zz'], ['b'], ['a'], ['a', 'b']]))       # names of real parameters too: their int arrays are NOT converted
     return {}
 
 
@@ -855,6 +855,19 @@ def laws(rng, tier, ctx):
             if not same_wrapper(twice, expect):
                 yield Finding('violation', dict(tag='law-wrap-once', lines=['(deco mk %s)' % decos_enc([(c, p)] + po + [(c, p)])]),
                               'W(chain(W(f))) = %r but W(chain(f)) = %r' % (dump(twice)[0], dump(expect)[0]))
+            # the same with DIFFERENT parameters for the two applications: the outer one wins entirely (W_p(chain(W_q f)) == W_p(chain f))
+            count += 1
+            p2 = deco_params(rng, c)
+            inner2 = construct(c, p, base)
+            plain2 = base
+            for o, pp in po:
+                inner2 = construct(o, pp, inner2)
+                plain2 = construct(o, pp, plain2)
+            twice2 = construct(c, p2, inner2)
+            expect2 = construct(c, p2, plain2)
+            if not same_wrapper(twice2, expect2):
+                yield Finding('violation', dict(tag='law-wrap-once', lines=['(deco mk %s)' % decos_enc([(c, p)] + po + [(c, p2)])]),
+                              'W_p(chain(W_q(f))) = %r but W_p(chain(f)) = %r' % (dump(twice2)[0], dump(expect2)[0]))
     # (4) try_* return the fallback exactly when f raises; try_back returns the first argument
     from pyg_base._decorators import try_value, try_back
     for sig, args, kw in allcalls:
